@@ -60,6 +60,7 @@ func C10(c *core.Ctx) {
 	c.Explain = "The size arithmetic over all packet sizes and MTUs, and byte-exact reproduction under every interleaving, are numeric/behavioural and NOT decided. Decided structural necessary conditions: (R10.1 protocol-field agreement) every LpPacket field the receive path reads to reassemble and deliver (Sequence, FragIndex, FragCount, Fragment, PitToken, CongestionMark) is stored by the send path, the three fragmentation fields only when more than one fragment is produced and on every fragment; frozen exceptions NextHopFaceId and CachePolicy (set by applications, not by the forwarder); (R10.2 reserve/attach agreement) an optional header is attached to a fragment only on paths on which its overhead was subtracted from the MTU — decided by reachability that is path-sensitive in the presence predicate of the attached value; the overhead constants cover the TLV sizes implied by the definition tags, including the Fragment element's own type and length; (R10.3) an oversize packet with fragmentation disabled reaches no sendFrame; every transport sendFrame that writes drops frames longer than MTU() first (siblings; NullTransport writes nothing); a completed message is removed from the partial-message store; (R10.5) reassembly key, slot and slot count are Sequence−FragIndex, FragIndex and FragCount, FragIndex is bounded by the count before it indexes, and the sender numbers consecutive fragments consecutively."
 	c.RuleText = "instances: LpPacket fields read on receive vs written on send, optional headers with an overhead constant, the additive terms of computeHeaderOverhead, transport implementations (discovered through the type checker), reassembly call arguments. Non-trivial = has a field set, path or constant sum to decide."
 	p := c.P
+	defer c10FrameBuffer(c)
 	// fields of the link service by role, not by name: the reassembly store is the map
 	// field whose values are fragment lists ([][]byte); the cached overhead is the int
 	// field that the overhead function assigns
@@ -1046,5 +1047,92 @@ func C10(c *core.Ctx) {
 			okSlot = g.OK && g.PassEdges > 0
 		}
 		c.Decide(okSlot, "R10.5", "slot-index-within-stored-message", p.Pos(reas.Pos()), "the slot index is compared with the length of the stored slot slice", "a fragment whose FragIndex lies outside the slot slice allocated by an earlier fragment of the same message indexes out of range")
+	}
+}
+
+// c10FrameBuffer — R10.13 "never truncated": when the outgoing frame is assembled by
+// copy() into a buffer the link service keeps in a field (copy silently stops at the end of
+// its destination, unlike append, which grows), that buffer is allocated with a constant
+// size of at least the maximum packet size wherever it is assigned. A buffer sized by a
+// run-time quantity read at construction (the MTU of that moment) truncates every longer
+// frame once the quantity changes, and the truncated frame is sent.
+func c10FrameBuffer(c *core.Ctx) {
+	p := c.P
+	sp := p.Func("fw/face", "", "sendPacket")
+	if sp == nil {
+		return
+	}
+	maxPkt := int64(8800)
+	if o, ok := p.Pkgs[core.ModPath+"/fw/defn"].Types.Scope().Lookup("MaxNDNPacketSize").(*types.Const); ok {
+		if v, ok := constInt64(o); ok {
+			maxPkt = v
+		}
+	}
+	// fields of the link service that are the destination of a copy
+	fieldOfDst := func(v ssa.Value) string {
+		for depth := 0; depth < 6; depth++ {
+			switch x := core.Strip(v).(type) {
+			case *ssa.Slice:
+				v = x.X
+			case *ssa.UnOp:
+				if fa, ok := x.X.(*ssa.FieldAddr); ok && x.Op == token.MUL {
+					t, f := core.FieldAddrName(fa)
+					if t == "NDNLPLinkService" {
+						return f
+					}
+				}
+				return ""
+			default:
+				return ""
+			}
+		}
+		return ""
+	}
+	copied := map[string]string{}
+	core.InstrsDeep(sp, func(in ssa.Instruction) {
+		ci, ok := in.(*ssa.Call)
+		if !ok {
+			return
+		}
+		if b, isB := ci.Call.Value.(*ssa.Builtin); isB && b.Name() == "copy" && len(ci.Call.Args) == 2 {
+			if f := fieldOfDst(ci.Call.Args[0]); f != "" {
+				copied[f] = c.Pos(in)
+			}
+		}
+	})
+	c.Extra["frame_buffers_filled_by_copy"] = len(copied)
+	nStores := 0
+	for f, at := range copied {
+		var bad []string
+		for _, fn := range p.FuncsIn(core.ModPath + "/fw/face") {
+			if strings.HasSuffix(p.File(fn.Pos()), "_test.go") {
+				continue
+			}
+			core.Instrs(fn, func(in ssa.Instruction) {
+				_, v, ok := storeToField(in, "NDNLPLinkService", f)
+				if !ok {
+					return
+				}
+				if fieldOfDst(v) == f { // a re-slice of itself
+					return
+				}
+				nStores++
+				k, isC := int64(0), false
+				switch x := core.Strip(v).(type) {
+				case *ssa.MakeSlice:
+					k, isC = core.ConstInt(x.Len)
+				case *ssa.Slice:
+					if al, okA := core.Strip(x.X).(*ssa.Alloc); okA {
+						if at, okT := core.Deref(al.Type()).Underlying().(*types.Array); okT {
+							k, isC = at.Len(), true
+						}
+					}
+				}
+				if !isC || k < maxPkt {
+					bad = append(bad, c.Pos(in))
+				}
+			})
+		}
+		c.Decide(len(bad) == 0 && nStores > 0, "R10.13", "copied-frame-buffer-has-constant-full-size:"+f, at, "the buffer the frame is copied into is allocated with a constant size ≥ the maximum packet size", "the outgoing frame is assembled by copy() into NDNLPLinkService."+f+", which is allocated with a size that is not a constant ≥ "+fmt.Sprint(maxPkt)+" ("+strings.Join(bad, ", ")+"): copy stops at the end of the buffer, so once a frame is longer than the buffer was sized for (the MTU was raised since) the frame is truncated and sent")
 	}
 }
